@@ -215,3 +215,255 @@ example : (detectFrame exFrame).toOption.map (fun o =>
 end Example
 
 end PEval.PipelineProps
+
+/-! ## (v) TP soundness of the composed pipeline (appended)
+
+`C03.tp_sound` speaks about the fields `labelOk`, `thr`, `score` of a `PassFail.Res`.  Below the same clause is
+stated for the pipeline's INPUTS: the estimates and ground truths handed to the matcher, the label policy, the
+pass/fail target-label list and threshold list, the plane-distance table.  `TpSound key` is the statement about
+the pipeline whose threshold lookup is keyed as `key` says; it is proved for `.gtLabel` (= `detectFrame`, the code)
+and refuted for `.estLabel` on a concrete frame. -/
+
+namespace PEval.PipelineProps
+open PEval PEval.Pipeline
+
+/-- `k` is `target_labels.index(l)`: the first position at which `l` occurs in the target list -/
+def IsIndexOf (l : AP.Label) (ts : List AP.Label) (k : Nat) : Prop :=
+  ts[k]? = some l ∧ ∀ k', k' < k → ts[k']? ≠ some l
+
+/-- Every TP of the pipeline is a pair `(i, j)` the matcher made, both objects inside the critical region, the
+ground truth not FP-labelled and label-compatible with the estimate under the configured policy, and — whenever a
+pass/fail threshold list is configured and the GROUND TRUTH's label occurs in the pass/fail target list — the
+plane distance of the pair is strictly below the entry of the threshold list at the index of the ground truth's
+label in the target list. -/
+def TpSound (key : ThrKey) : Prop :=
+  ∀ (f : Frame) (o : Out), detectFrameWith key f = .ok o → ∀ r ∈ o.pf.tp,
+    ∃ i j e g, (i, some j) ∈ o.matched ∧ r.est = (f.est i).id ∧ r.gt = some (toGT f j) ∧
+      f.scene.ests[i]? = some e ∧ f.scene.gts[j]? = some g ∧
+      Matching.isMatchable f.cfg.policy e g = true ∧ (f.gt j).label ≠ AP.fpLabel ∧
+      (f.est i).crit = true ∧ (f.gt j).crit = true ∧
+      ∀ thrs k, f.pfThrs = some thrs → IsIndexOf (f.gt j).label f.pfTargets k →
+        ∃ t v, thrs[k]? = some t ∧ f.pfScore i j = some v ∧ v < t
+
+/-- the code is the `.gtLabel` instance -/
+theorem detectFrameWith_gtLabel (f : Frame) : detectFrameWith .gtLabel f = detectFrame f := rfl
+
+theorem detectFrameWith_ok {k : ThrKey} {f : Frame} {o : Out} (h : detectFrameWith k f = .ok o) :
+    ∃ rs, Matching.getObjectResults f.cfg f.scene = .ok rs ∧ o.matched = rs ∧
+      o.pf = PassFail.evaluateFrame (pfFrameWith k f rs) ∧ pfThrErrorWith k f (critResults f rs) = none := by
+  unfold detectFrameWith at h
+  cases hr : Matching.getObjectResults f.cfg f.scene with
+  | error e => simp [hr] at h
+  | ok rs =>
+    simp only [hr] at h
+    cases hm : mapsFor f rs f.maps with
+    | error e => simp [hm] at h
+    | ok maps =>
+      simp only [hm] at h
+      cases ht : pfThrErrorWith k f (critResults f rs) with
+      | some e => simp [ht] at h
+      | none =>
+        simp only [ht, Except.ok.injEq] at h
+        subst h
+        exact ⟨rs, rfl, rfl, rfl, ht⟩
+
+theorem getLabelThreshold_index {l : AP.Label} {ts : List AP.Label} {thrs : List Rat} {k : Nat}
+    (hk : IsIndexOf l ts k) :
+    AP.getLabelThreshold l ts (some thrs) =
+      (match thrs[k]? with
+       | some t => .ok (some t)
+       | none => .error "IndexError") := by
+  obtain ⟨h1, h2⟩ := hk
+  obtain ⟨hlt, hget⟩ := List.getElem?_eq_some_iff.1 h1
+  have hidx : ts.findIdx? (· == l) = some k := by
+    rw [List.findIdx?_eq_some_iff_getElem]
+    refine ⟨hlt, by simp [hget], ?_⟩
+    intro j hj hb
+    have hjl : j < ts.length := Nat.lt_trans hj hlt
+    have : ts[j] = l := by simpa using hb
+    exact h2 j hj (by rw [List.getElem?_eq_getElem hjl, this])
+  unfold AP.getLabelThreshold
+  simp only [hidx]
+  cases thrs[k]? <;> rfl
+
+/-- every TP of the pipeline (any keying) is a surviving pair of the matcher, judged TP on its translated
+record, and its threshold lookup returned -/
+theorem tp_is_matched_pair {k : ThrKey} {f : Frame} {o : Out} (h : detectFrameWith k f = .ok o)
+    (r : PassFail.Res) (hr : r ∈ o.pf.tp) :
+    ∃ i j, (i, some j) ∈ o.matched ∧ survives f (i, some j) = true ∧ r = toPFResWith k f (i, some j) ∧
+      r ∈ (PassFail.getPositive (PassFail.criticalResults (o.matched.map (toPFResWith k f)))).1 ∧
+      ∃ t, pfThrOfWith k f i j = .ok t := by
+  obtain ⟨rs, _, hm, hpf, herr⟩ := detectFrameWith_ok h
+  subst hm
+  rw [hpf] at hr
+  have hr' : r ∈ (PassFail.getPositive (PassFail.criticalResults (o.matched.map (toPFResWith k f)))).1 := hr
+  have hr2 := hr'
+  rw [PassFail.getPositive_fst] at hr2
+  obtain ⟨hmem, htp⟩ := List.mem_filter.1 hr2
+  obtain ⟨hmem2, hsurv⟩ := List.mem_filter.1 hmem
+  obtain ⟨m, hmm, rfl⟩ := List.mem_map.1 hmem2
+  obtain ⟨i, o2⟩ := m
+  cases o2 with
+  | none =>
+    obtain ⟨g, hg, _⟩ := (PassFail.isTP_iff _).1 htp
+    cases hg
+  | some j =>
+    have hs : survives f (i, some j) = true := hsurv
+    refine ⟨i, j, hmm, hs, rfl, hr', ?_⟩
+    have hin : (i, some j) ∈ critResults f o.matched := List.mem_filter.2 ⟨hmm, hs⟩
+    have := (List.findSome?_eq_none_iff.1 herr) (i, some j) hin
+    simp only at this
+    cases hx : pfThrOfWith k f i j with
+    | ok t => exact ⟨t, rfl⟩
+    | error e => rw [hx] at this; cases this
+
+/-- **TP soundness of the composed pipeline**, from (estimates, ground truths, configuration) -/
+theorem pipeline_tp_sound : TpSound .gtLabel := by
+  intro f o h r hr
+  obtain ⟨i, j, hmem, hs, rfl, hpos, t0, ht0⟩ := tp_is_matched_pair h r hr
+  obtain ⟨g, hg, hfp, hlab, hthr⟩ := C03.tp_sound _ _ hpos
+  have hg' : g = toGT f j := by
+    have : (toPFResWith .gtLabel f (i, some j)).gt = some (toGT f j) := rfl
+    rw [this] at hg; exact (Option.some.inj hg).symm
+  subst hg'
+  have hlab' : labelOk f i j = true := hlab
+  unfold labelOk at hlab'
+  cases he : f.scene.ests[i]? with
+  | none => rw [he] at hlab'; cases hlab'
+  | some e =>
+    cases hgg : f.scene.gts[j]? with
+    | none => rw [he, hgg] at hlab'; cases hlab'
+    | some g =>
+      rw [he, hgg] at hlab'
+      have hsurv : (f.est i).crit = true ∧ (f.gt j).crit = true := by
+        have : ((f.est i).crit && (f.gt j).crit) = true := hs
+        exact Bool.and_eq_true_iff.1 this
+      have hnfp : (f.gt j).label ≠ AP.fpLabel := by
+        have : ((f.gt j).label == AP.fpLabel) = false := hfp
+        simpa using this
+      refine ⟨i, j, e, g, hmem, rfl, rfl, he, hgg, hlab', hnfp, hsurv.1, hsurv.2, ?_⟩
+      intro thrs k hthrs hk
+      have hlook : pfThrOfWith .gtLabel f i j = (match thrs[k]? with
+          | some t => .ok (some t)
+          | none => .error "IndexError") := by
+        show AP.getLabelThreshold (f.gt j).label f.pfTargets f.pfThrs = _
+        rw [hthrs]; exact getLabelThreshold_index hk
+      cases htk : thrs[k]? with
+      | none => rw [htk] at hlook; rw [hlook] at ht0; cases ht0
+      | some t =>
+        rw [htk] at hlook
+        have hrthr : (toPFResWith .gtLabel f (i, some j)).thr = some t := by
+          show pfThrWith .gtLabel f i j = some t
+          unfold pfThrWith; rw [hlook]
+        rcases hthr with hnone | ⟨t', v, ht', hv, hlt⟩
+        · rw [hrthr] at hnone; cases hnone
+        · rw [hrthr] at ht'; cases ht'
+          exact ⟨t, v, rfl, hv, hlt⟩
+
+/-- the same statement for `detectFrame` itself -/
+theorem pipeline_tp_sound_detectFrame (f : Frame) (o : Out) (h : detectFrame f = .ok o) :
+    ∀ r ∈ o.pf.tp,
+    ∃ i j e g, (i, some j) ∈ o.matched ∧ r.est = (f.est i).id ∧ r.gt = some (toGT f j) ∧
+      f.scene.ests[i]? = some e ∧ f.scene.gts[j]? = some g ∧
+      Matching.isMatchable f.cfg.policy e g = true ∧ (f.gt j).label ≠ AP.fpLabel ∧
+      (f.est i).crit = true ∧ (f.gt j).crit = true ∧
+      ∀ thrs k, f.pfThrs = some thrs → IsIndexOf (f.gt j).label f.pfTargets k →
+        ∃ t v, thrs[k]? = some t ∧ f.pfScore i j = some v ∧ v < t :=
+  pipeline_tp_sound f o h
+
+/-! ### non-vacuity, and the variant keyed on the estimate's label
+
+Policy ALLOW_ANY; one estimate `car`, one ground truth `pedestrian`, centre distance 1/2 (matched), plane
+distance 1; pass/fail targets [car, pedestrian] with thresholds [2, 1/2]. Keyed on the ground truth's label the
+pair fails (1 < 1/2 is false): no TP. Keyed on the estimate's label it passes (1 < 2): a TP whose score does not
+beat the threshold of its ground truth's label. -/
+section TpExample
+
+def exKey : Frame :=
+  { cfg := { policy := .allowAny, mode := .centerDistance, targets := some ["car", "pedestrian"],
+             thresholds := some [3, 3], fpValidation := false },
+    scene := { ests := [⟨"car", "base_link"⟩], gts := [⟨"pedestrian", "base_link"⟩], val := fun _ _ => 1 / 2 },
+    est := fun _ => ⟨1, 2, 1 / 2, true⟩,
+    gt := fun _ => ⟨101, 4, true, 101⟩,
+    pfTargets := [2, 4], pfThrs := some [2, 1 / 2],
+    pfScore := fun _ _ => some 1,
+    apScore := fun _ _ _ => some (1 / 2),
+    hw := fun _ _ => 1,
+    critTargets := [2, 4], mapTargets := [2, 4], maps := [] }
+
+/-- the code: no TP, the estimate is an FP and the ground truth an FN -/
+example : (detectFrame exKey).toOption.map (fun o => (o.matched, o.pf.tp.map (·.est), o.pf.fp.map (·.est), o.pf.fn.map (·.id)))
+    = some ([(0, some 0)], [], [1], [101]) := by decide +kernel
+
+/-- the hypotheses of `pipeline_tp_sound` are met with a TP present (the frame of section (ii)): estimate 1 on
+ground truth 101, score 1/2 < 2 = the `car` entry -/
+example : (detectFrame exFrame).toOption.map (fun o => o.pf.tp.map (fun r => (r.est, r.gt.map (·.id), r.thr, r.score)))
+    = some [(1, some 101, some 2, some (1 / 2))] := by decide +kernel
+example : IsIndexOf (exFrame.gt 0).label exFrame.pfTargets 0 := ⟨rfl, fun _ hk' => absurd hk' (Nat.not_lt_zero _)⟩
+
+/-- **keyed on the estimate's label the statement fails** -/
+theorem estLabel_not_tp_sound : ¬ TpSound .estLabel := by
+  intro h
+  have hok : (detectFrameWith .estLabel exKey).toOption.map (fun o => o.pf.tp.length) = some 1 := by decide +kernel
+  cases hd : detectFrameWith .estLabel exKey with
+  | error e => rw [hd] at hok; cases hok
+  | ok o =>
+    rw [hd] at hok
+    have hlen : o.pf.tp.length = 1 := by simpa [Except.toOption] using hok
+    cases htp : o.pf.tp with
+    | nil => rw [htp] at hlen; cases hlen
+    | cons r rest =>
+      obtain ⟨i, j, e, g, _, _, _, _, _, _, _, _, _, hthr⟩ := h exKey o hd r (by rw [htp]; exact List.mem_cons_self)
+      have hidx : IsIndexOf (exKey.gt j).label exKey.pfTargets 1 := by
+        refine ⟨rfl, ?_⟩
+        intro k' hk'
+        have : k' = 0 := by omega
+        subst this
+        show ([2, 4] : List AP.Label)[0]? ≠ some 4
+        decide
+      obtain ⟨t, v, ht, hv, hlt⟩ := hthr [2, 1 / 2] 1 rfl hidx
+      have ht' : t = 1 / 2 := by
+        have : ([2, 1 / 2] : List Rat)[1]? = some (1 / 2) := rfl
+        rw [this] at ht; exact (Option.some.inj ht).symm
+      have hv' : v = 1 := by
+        have : exKey.pfScore i j = some 1 := rfl
+        rw [this] at hv; exact (Option.some.inj hv).symm
+      subst ht' hv'
+      revert hlt
+      norm_num
+
+end TpExample
+
+/-! ### the label choice of `get_negative_objects`
+
+Its first loop looks the threshold up for EVERY result: under the ground truth's label if there is one, else under
+the estimate's (`toPFResNeg`).  For a paired result that is the record `get_positive_objects` uses; for an unpaired
+one the threshold is looked up but never read (`get_status` answers `(FP, None)` before looking at it).  Hence the
+TN / FN lists do not depend on the estimate-label lookups, and the single record `toPFRes` (threshold keyed on the
+ground truth's label, none for unpaired results) is a faithful input of both functions. -/
+
+theorem toPFResNeg_paired (f : Frame) (i j : Nat) : toPFResNeg f (i, some j) = toPFRes f (i, some j) := rfl
+
+theorem toPFResNeg_status (f : Frame) (r : Matching.Res) :
+    (toPFResNeg f r).gt = (toPFRes f r).gt ∧ PassFail.getStatus (toPFResNeg f r) = PassFail.getStatus (toPFRes f r) := by
+  obtain ⟨i, o⟩ := r
+  cases o with
+  | some j => exact ⟨rfl, rfl⟩
+  | none => exact ⟨rfl, rfl⟩
+
+theorem negative_label_choice (f : Frame) (gts : List PassFail.GT) (rs : List Matching.Res) :
+    PassFail.getNegative gts (rs.map (toPFResNeg f)) = PassFail.getNegative gts (rs.map (toPFRes f)) := by
+  have h : PassFail.negFromResults (rs.map (toPFResNeg f)) = PassFail.negFromResults (rs.map (toPFRes f)) := by
+    induction rs with
+    | nil => rfl
+    | cons r rs ih =>
+      obtain ⟨hg, hs⟩ := toPFResNeg_status f r
+      simp only [List.map_cons, PassFail.negFromResults, hg, hs, ih]
+  unfold PassFail.getNegative
+  rw [h]
+
+/-- the estimate's label IS read by the real lookup of an unpaired result (it can even raise): the model keeps the
+lookup, and this is the record with the looked-up threshold — different from `toPFRes`, same status -/
+example : (toPFResNeg exFrame (2, none)).thr = some 2 ∧ (toPFRes exFrame (2, none)).thr = none := by decide +kernel
+
+end PEval.PipelineProps
